@@ -68,6 +68,8 @@ def run(m: Model, r: Report, tier: str) -> None:
                  "state is updated before suppression", floor=3)
     r.rule("R5", "session / security state changes only under guards on the positive response classes ISO names; seed/key sequencing", floor=6)
 
+    from sa.uds_rules import iso_tables
+    iso_tables(m, r, "R3", "UDSErrorCodes")
     srv = m.require_class(f"{SRV}.UDSServer")
     chain = m.require_function(f"{SRV}.UDSServer.respond_without_state_change")
     # ---------------------------------------------------------------- R1 / R2
